@@ -672,7 +672,7 @@ fn seed_texts(label: &str, seeds: &Arc<Vec<Seed>>, cfgs: &[Cfg], f: fn(&str, &Cf
     sf(label, seeds, cfgs, Box::new(move |s, c, ctx| f(&s.text, c, ctx)))
 }
 
-fn c05_family(g: &Arc<Grammar>, d: usize, cfgs: &[Cfg], flips: bool) -> Box<dyn Family> {
+fn c05_family(g: &Arc<Grammar>, d: usize, cfgs: &[Cfg], flips: bool, comments: bool) -> Box<dyn Family> {
     pf(
         "c05",
         g,
@@ -705,6 +705,36 @@ fn c05_family(g: &Arc<Grammar>, d: usize, cfgs: &[Cfg], flips: bool) -> Box<dyn 
                     let mut gaps = l1.clone();
                     gaps[i] = "\n".to_string();
                     run(&gaps, ctx);
+                }
+            }
+            if comments {
+                // a comment in any gap, or a whole statement wrapped in {$IFDEF X}..{$ENDIF}, must not
+                // move any statement to another line or level
+                let l0 = layout::base_gaps(toks, Base::L0);
+                let frozen = layout::frozen_gaps(toks);
+                let mut run_text = |x: String, ctx: &mut Ctx| {
+                    ctx.sub_eval();
+                    let out = ctx.fmt(c, &x);
+                    if o2::c02(&x, &out, c, ctx) {
+                        o2::c05(&x, toks, &out, c, ctx);
+                    }
+                };
+                for i in 1..toks.len() {
+                    if frozen[i] {
+                        continue;
+                    }
+                    for k in [0usize, 2, 4] {
+                        for p in 0..3 {
+                            run_text(layout::with_comment(toks, &l0, i, k, p), ctx);
+                        }
+                    }
+                }
+                let nts: Vec<usize> = ["Stmt"].iter().map(|n| _g.nt(n)).collect();
+                for (a, b) in layout::spans(toks, &nts) {
+                    if (a..b).any(|j| frozen[j]) {
+                        continue;
+                    }
+                    run_text(layout::with_directive(toks, &l0, a, b, 0), ctx);
                 }
             }
         }),
@@ -922,11 +952,12 @@ pub fn families(check: &str, tier: &str) -> Vec<Box<dyn Family>> {
             let c05q: Vec<Cfg> = C_QUICK.iter().copied().filter(|c| c.wrap >= 30).collect();
             let c05f: Vec<Cfg> = full.iter().copied().filter(|c| c.wrap >= 30).collect();
             if quick {
-                vec![c05_family(&g(2), 2, &c05q, false)]
+                vec![c05_family(&g(2), 2, &c05q, false, false), c05_family(&g(1), 1, &c05q[..3], true, true)]
             } else {
                 vec![
-                    c05_family(&g(3), 3, &c05q[..3], false),
-                    c05_family(&g(2), 2, &c05f, true),
+                    c05_family(&g(3), 3, &c05q[..3], false, false),
+                    c05_family(&g(2), 2, &c05f, true, false),
+                    c05_family(&g(2), 2, &c05q[..2], false, true),
                 ]
             }
         }
